@@ -169,7 +169,7 @@ impl Property for C13 {
     fn budget(&self, tier: Tier) -> Budget {
         match tier {
             Tier::Quick => Budget { release: 1_600_000, dbg: 400_000, workers: 8 },
-            Tier::Thorough => Budget { release: 6_000_000, dbg: 1_200_000, workers: 16 },
+            Tier::Thorough => Budget { release: 40_000_000, dbg: 10_000_000, workers: 16 },
         }
     }
 }
